@@ -110,6 +110,9 @@ func (rf *Ref) Eval(e *gram.Expr, pos int) []Res {
 			return []Res{{t, pos}}
 		}
 		return nil
+	case gram.OpSuppress:
+		// SuppressError(p): p's results, whatever happens to its error
+		return rf.Eval(e.Kids[0], pos)
 	case gram.OpLTrim:
 		// LeftTrim(p, mode): the run of whitespace at pos is skipped; p's results from the end of the run count iff the run
 		// satisfies the mode (0 none: empty run, 1 spaces: no line break, 2 spaces and newlines: anything, 3: >= 1 line break)
